@@ -270,6 +270,10 @@ func (tr *Transaction) Discard() {
 	tr.lk.Lock()
 	if !tr.closed {
 		tr.discard()
+		// Never hand out the discarded transaction's sequence numbers again:
+		// its iterators may outlive it and must not see later writes that
+		// would otherwise reuse them.
+		tr.db.setSeq(tr.seq)
 		tr.setDone()
 	}
 	tr.lk.Unlock()
